@@ -97,7 +97,11 @@ func Path(n int) *DenseGraph {
 }
 
 //Cycle returns a copy of the cycle on n vertices.
+//n must be at least 3.
 func Cycle(n int) *DenseGraph {
+	if n < 3 {
+		panic("n must be at least 3.")
+	}
 	edges := make([]byte, (n*(n-1))/2)
 	for i := 0; i < n-1; i++ {
 		edges[((i+1)*i)/2+i] = 1
@@ -135,11 +139,14 @@ func RookGraph(n, m int) *DenseGraph {
 	return LineGraphDense(CompletePartiteGraph(n, m))
 }
 
-//FlowerSnark returns the flower snark on 4n vertices for n odd.
+//FlowerSnark returns the flower snark on 4n vertices for n odd and at least 3.
 //See https://en.wikipedia.org/wiki/Flower_snark
 func FlowerSnark(n int) *DenseGraph {
 	if n&1 == 0 {
 		panic("n must be odd")
+	}
+	if n < 3 {
+		panic("n must be at least 3")
 	}
 	N := 4 * n
 	edges := make([]byte, (N*(N-1))/2)
